@@ -145,7 +145,11 @@ class Worker:
             names = job.get("member_names") or [f"m{i + 1}.{ext}" for i in range(mm)]
             payload = M.build_archive(arch, [(n, data) for n in names]) if not job.get("raw_archive") else data
         if entry == "direct":
-            return "gen", self.by_kind[kind].func(io.BytesIO(data), nm)
+            # the failure surface must not depend on the optional path argument: absent / empty / real
+            pm = job.get("path_mode", "real")
+            if pm == "none":
+                return "gen", self.by_kind[kind].func(io.BytesIO(data))
+            return "gen", self.by_kind[kind].func(io.BytesIO(data), "" if pm == "empty" else nm)
         if entry == "readfile":
             return "gen", self.sp.read_file(self._file(nm, data))
         if entry == "member":
